@@ -1,7 +1,7 @@
 (* C13 - Tags on the wire are exactly the type's tags.
    Only statements closed by [exact]; proofs live in Proofs/. *)
 From PV Require Import Base.Bytes Model.Tag Model.Types Model.TableTypes Model.Enc Model.Dec Gen.Tables
-     Model.Obs Proofs.TagOctets Proofs.TagAlgebra Proofs.Spine Proofs.TagsetShape Proofs.DecFrame Proofs.RoundTrip1 Proofs.TagReject Proofs.RoundTrip3b Proofs.RoundTrip3e.
+     Model.Obs Proofs.TagOctets Proofs.TagAlgebra Proofs.Spine Proofs.TagsetShape Proofs.DecFrame Proofs.RoundTrip1 Proofs.TagReject Proofs.RoundTrip3a Proofs.RoundTrip3b Proofs.RoundTrip3e Proofs.TagReject2.
 Local Open Scope N_scope.
 
 (* identifier octets round trip for every class, form and number (no bound on the number) *)
@@ -122,3 +122,28 @@ Theorem C13_accepts_own_stage3 : forall ce cd T v b tl,
   exists v', decode cd (Some T) (b ++ tl) = Ok (DV T v', tl) /\ abs T v' = abs T v.
 Proof. exact roundtrip_stage3. Qed.
 Print Assumptions C13_accepts_own_stage3.
+
+(* Rejection over the whole universe, for every input: T any type with a tag set of its own (constructed
+   base types included), ANY value the encoder accepts, T' any type with good keys (an untagged CHOICE is
+   refused iff every alternative differs).  tags_differ_u is the exact condition: no key of T' is a
+   suffix of T's tags, and - when T is a constructed type under a non-universal tag, which the decoder
+   may enter as if it were an EXPLICIT wrapper - T's tags are not a suffix of the key either.  It covers
+   what the property names: the same number of tags with a difference in class or number somewhere
+   (same_length_differs), and longer tag sets when T cannot be entered. *)
+Theorem C13_mismatch_rejected_universe : forall ce cd T T' v b tl,
+  enc_ok ce -> wf_tags T = true -> plain_top T = true ->
+  encode ce true 0 T v = Ok b ->
+  keys_ok (ckeys T') = true ->
+  tags_differ_u T T' = true ->
+  exists e, decode cd (Some T') (b ++ tl) = Err e /\ is_library e = true.
+Proof. exact tag_mismatch_rejected_universe. Qed.
+Print Assumptions C13_mismatch_rejected_universe.
+
+Theorem C13_mismatch_rejected_stage3 : forall srt srt' ce ce' cd T T' v b tl,
+  enc_ok ce -> stage3_ty srt ce T = true -> plain_top T = true ->
+  encode ce true 0 T v = Ok b ->
+  stage3_ty srt' ce' T' = true -> T' <> TAny ->
+  Forall (fun k => length k = length (tagset_of' T) /\ tagset_eqb (tagset_of' T) k = false) (ckeys T') ->
+  exists e, decode cd (Some T') (b ++ tl) = Err e /\ is_library e = true.
+Proof. exact tag_mismatch_rejected_stage3. Qed.
+Print Assumptions C13_mismatch_rejected_stage3.
